@@ -135,7 +135,7 @@ def _show(v):
     return r if len(r) < 60 else r[:57] + "..."
 
 
-def fold_rule(an: Analysis, rep, rule="R07.W"):
+def fold_rule(an: Analysis, rep, rule="R07.W", foreign_documents=False):
     rep.rule(rule, "the JSON decoder folded over witness documents gives the data the documents describe (type-, sign- and shape-exact)", 2)
     enc, cdec = find_json_functions(an)
     m = cdec.module
@@ -194,6 +194,32 @@ def fold_rule(an: Analysis, rep, rule="R07.W"):
         rep.add(rule, f"{top.qual}::witness document: {name.split(',')[0]}", why is None, loc(m, top.node),
                 f"{name}: decoded as written" if why is None else
                 f"on the witness document ({name}) the decoder gives {why} - the document to_json_data writes for such data does not load back to it")
+
+
+    if not foreign_documents:
+        return  # (the documents the library writes itself never hold a float where an int belongs: only C08 speaks about every JSON-loaded CodeData)
+    # JSON does not tell 1 from 1.0 and the schema's "integer" accepts both: a document that writes the integer members as 1.0 (json.dumps of a float, a
+    # producer that keeps all numbers as doubles) is valid; the data loaded from it must hold ints there - or the loader refuses - while a float constant stays a float
+    FDOC = {"blocks": [[{"name": "LOAD_CONST", "arg": {"constant": 2.0, "_index_override": 1.0}, "line_number": 3.0, "_n_args_override": 2.0, "_line_offsets_override": [1.0]},
+                        {"name": "JUMP_FORWARD", "arg": {"target": 1.0, "relative": True}}], [{"name": "RETURN_VALUE"}]],
+            "filename": "f", "first_line_number": 1.0, "name": "m", "stacksize": 1.0, "_additional_line": {"line": 2.0, "additional_offsets": [1.0]}}
+    FEXP = E("CodeData", blocks=((E("Instruction", name="LOAD_CONST", arg=E("Constant", constant=2.0, _index_override=1), line_number=3, _n_args_override=2, _line_offsets_override=(1,)),
+                                  E("Instruction", name="JUMP_FORWARD", arg=E("Jump", target=1, relative=True))), (E("Instruction", name="RETURN_VALUE"),)),
+             filename="f", first_line_number=1, name="m", stacksize=1, _additional_line=E("AdditionalLine", line=2, additional_offsets=(1,)))
+    ev = ObjEval(resolve, extra=extra)
+    ev.module_assigns = m.assigns
+    ev.MAX_ITER = 256
+    try:
+        got = ev.call_method(top.node, _copy.deepcopy(FDOC))
+        why = _same(got, FEXP, defaults, "data")
+    except (BlockOutcome, ValueError):
+        why = None  # refused: nothing is loaded that could compare equal to the int version
+    except Exception as ex:  # noqa: BLE001 - a gap of the evaluator, never a verdict
+        raise AnalysisError(f"{top.qual}: the decoder is not evaluable on the witness document with integers written as floats ({type(ex).__name__}: {ex})")
+    rep.add(rule, f"{top.qual}::witness document: integers written as floats", why is None, loc(m, top.node),
+            "integral floats in integer positions are converted (or refused); the float constant stays a float" if why is None else
+            f"a schema-valid document that writes its integer members as 1.0 loads with {why}: the data compares equal to (and hashes like) the one loaded from the same document with ints - "
+            f"1 == 1.0 - but to_code() of it raises TypeError, and it is written back as another document")
 
 
 PURE_STDLIB = ("base64", "binascii", "math", "re", "string", "cmath")
